@@ -506,4 +506,220 @@ theorem pslidingCount_key (size slide : Nat) (ops : List Op) (k : String) :
     forKey k ((pslidingCount size slide).emits (pslidingCount size slide).init ops) = (slidingCount size slide).emits (slidingCount size slide).init (proj winRoute k ops) :=
   partition_from_init (slidingCount size slide) winRoute never (slidingCount_idle size slide) (never_drop _) ops k
 
+
+/-! ### a partitioned window followed by a partitioned aggregate (engine glue) -/
+
+
+
+theorem keysOf_append_same {α κ : Type} [DecidableEq κ] (f : α → κ) (k : κ) (rb : List α) (hk : k ∉ keysOf f rb) :
+    ∀ (w : List α), (∀ e ∈ w, f e = k) → keysOf f (w ++ rb) = (if w = [] then [] else [k]) ++ keysOf f rb := by
+  intro w
+  induction w with
+  | nil => intro _; simp
+  | cons e w ih =>
+    intro hw
+    have he : f e = k := hw e (by simp)
+    have ih' := ih (fun x hx => hw x (by simp [hx]))
+    simp only [List.cons_append, keysOf, he, ih']
+    have hfilt : (keysOf f rb).filter (fun x => decide (x ≠ k)) = keysOf f rb := by
+      rw [List.filter_eq_self]; intro a ha; simp; intro h; subst h; exact hk ha
+    by_cases hwn : w = []
+    · simp only [hwn, if_true, List.nil_append, if_neg (List.cons_ne_nil e []), hfilt, List.singleton_append]
+    · simp only [hwn, if_false, if_neg (List.cons_ne_nil e w), List.singleton_append, List.filter_cons]
+      simp
+      intro a ha h; subst h; exact hk ha
+
+theorem filter_flatMap_key (k : String) : ∀ (out : List (String × List Ev)),
+    (out.map (·.1)).Nodup → (∀ p ∈ out, ∀ e ∈ p.2, e.partKey = p.1) →
+    (out.flatMap (·.2)).filter (fun e => e.partKey = k) = (out.filter (fun p => p.1 = k)).flatMap (·.2) := by
+  intro out
+  induction out with
+  | nil => simp
+  | cons p out ih =>
+    intro hnd hown
+    simp only [List.map_cons, List.nodup_cons] at hnd
+    have ih' := ih hnd.2 (fun q hq => hown q (by simp [hq]))
+    simp only [List.flatMap_cons, List.filter_append, ih']
+    by_cases hp : p.1 = k
+    · have : p.2.filter (fun e => decide (e.partKey = k)) = p.2 := by
+        rw [List.filter_eq_self]; intro e he; simp [hown p (by simp) e he, hp]
+      simp [hp, this]
+    · have : p.2.filter (fun e => decide (e.partKey = k)) = [] := by
+        rw [List.filter_eq_nil_iff]; intro e he; simp [hown p (by simp) e he, hp]
+      simp [hp, this]
+
+/-- if the windows of one step belong to distinct keys and each holds only events of its key, regrouping the
+flattened batch by key gives back exactly the non-empty windows: one aggregate per emitted window -/
+theorem aggregateStage_eq {ρ : Type} (agg : List Ev → ρ) : ∀ (out : List (String × List Ev)),
+    (out.map (·.1)).Nodup → (∀ p ∈ out, ∀ e ∈ p.2, e.partKey = p.1) →
+    aggregateStage agg out = (out.filter (fun p => p.2 ≠ [])).map (fun p => (p.1, agg p.2)) := by
+  intro out hnd hown
+  unfold aggregateStage papply
+  have hkeys : ∀ (o : List (String × List Ev)), (o.map (·.1)).Nodup → (∀ p ∈ o, ∀ e ∈ p.2, e.partKey = p.1) →
+      keysOf Ev.partKey (o.flatMap (·.2)) = (o.filter (fun p => p.2 ≠ [])).map (·.1) := by
+    intro o
+    induction o with
+    | nil => intro _ _; simp [keysOf]
+    | cons p o ih =>
+      intro hnd hown
+      simp only [List.map_cons, List.nodup_cons] at hnd
+      have ih' := ih hnd.2 (fun q hq => hown q (by simp [hq]))
+      have hk : p.1 ∉ keysOf Ev.partKey (o.flatMap (·.2)) := by
+        rw [ih']; intro h
+        obtain ⟨q, hq, hqe⟩ := List.mem_map.mp h
+        exact hnd.1 (List.mem_map.mpr ⟨q, (List.mem_filter.mp hq).1, hqe⟩)
+      rw [List.flatMap_cons, keysOf_append_same Ev.partKey p.1 _ hk p.2 (hown p (by simp)), ih']
+      by_cases hp : p.2 = []
+      · simp [hp]
+      · simp [hp]
+  rw [hkeys out hnd hown, List.map_map]
+  apply List.map_congr_left
+  intro p hp
+  have hpm := (List.mem_filter.mp hp).1
+  simp only [Function.comp]
+  congr 2
+  rw [filter_flatMap_key p.1 out hnd hown]
+  -- only `p` itself has key `p.1`
+  have : out.filter (fun q => decide (q.1 = p.1)) = [p] := by
+    clear hkeys hp
+    induction out with
+    | nil => simp at hpm
+    | cons q out ih =>
+      simp only [List.map_cons, List.nodup_cons] at hnd
+      rcases List.mem_cons.mp hpm with h | h
+      · subst h
+        have : out.filter (fun q => decide (q.1 = p.1)) = [] := by
+          rw [List.filter_eq_nil_iff]; intro q hq; simp; intro h; exact hnd.1 (List.mem_map.mpr ⟨q, hq, h⟩)
+        simp [this]
+      · have hne : q.1 ≠ p.1 := by intro h'; exact hnd.1 (List.mem_map.mpr ⟨p, h, h'.symm⟩)
+        simp only [List.filter_cons, hne, decide_false, Bool.false_eq_true, ↓reduceIte]
+        exact ih hnd.2 (fun r hr => hown r (by simp [hr])) h
+  rw [this]; simp
+/-- the sub-state of every key buffers only events of that key -/
+def OwnKeys {σ : Type} (bufOf : σ → List Ev) (ps : PState String σ) : Prop :=
+  ∀ k, ∀ e ∈ bufOf (ps.sub k), e.partKey = k
+
+theorem nodup_flatMap_tag {β : Type} (g : String → List β) (hone : ∀ k, (g k).length ≤ 1) :
+    ∀ (dom : List String), dom.Nodup → ((dom.flatMap (fun k => (g k).map (fun b => (k, b)))).map (·.1)).Nodup := by
+  intro dom
+  induction dom with
+  | nil => simp
+  | cons a dom ih =>
+    intro hnd
+    rw [List.nodup_cons] at hnd
+    rw [List.flatMap_cons, List.map_append, List.nodup_append]
+    refine ⟨?_, ih hnd.2, ?_⟩
+    · have := hone a
+      match hg : g a with
+      | [] => simp
+      | [b] => simp
+      | _ :: _ :: _ => rw [hg] at this; simp at this
+    · intro x hx y hy
+      simp only [List.map_map, List.mem_map, Function.comp] at hx
+      obtain ⟨b, _, rfl⟩ := hx
+      simp only [List.mem_map, List.mem_flatMap] at hy
+      obtain ⟨p, ⟨k, hk, hp⟩, rfl⟩ := hy
+      obtain ⟨b', _, rfl⟩ := hp
+      simp only
+      intro h; subst h; exact hnd.1 hk
+
+theorem pstep_out_ok {σ : Type} (m : Machine σ Op (List Ev)) (bufOf : σ → List Ev)
+    (hsub : ∀ s o, (∀ w ∈ (m.step s o).2, ∀ e ∈ w, e ∈ bufOf s ++ adds [o]) ∧ (∀ e ∈ bufOf (m.step s o).1, e ∈ bufOf s ++ adds [o]))
+    (hone : ∀ s o, (m.step s o).2.length ≤ 1) (drop : Op → List (List Ev) → Bool)
+    (ps : PState String σ) (hnd : ps.dom.Nodup) (hinv : OwnKeys bufOf ps) (op : Op) :
+    (((pstep m winRoute drop ps op).2).map (·.1)).Nodup ∧
+    (∀ p ∈ (pstep m winRoute drop ps op).2, ∀ e ∈ p.2, e.partKey = p.1) ∧
+    OwnKeys bufOf (pstep m winRoute drop ps op).1 := by
+  unfold pstep
+  cases hr : winRoute op with
+  | some k =>
+    have hop : ∃ e, op = .add e ∧ e.partKey = k := by
+      cases op <;> simp_all [winRoute]
+    obtain ⟨e, rfl, hek⟩ := hop
+    simp only
+    have hs := hsub (ps.sub k) (.add e)
+    have hmem : ∀ x, x ∈ bufOf (ps.sub k) ++ adds [Op.add e] → x.partKey = k := by
+      intro x hx
+      rcases List.mem_append.mp hx with h | h
+      · exact hinv k x h
+      · simp [adds] at h; subst h; exact hek
+    refine ⟨?_, ?_, ?_⟩
+    · have := hone (ps.sub k) (.add e)
+      match hg : (m.step (ps.sub k) (.add e)).2 with
+      | [] => simp
+      | [b] => simp
+      | _ :: _ :: _ => rw [hg] at this; simp at this
+    · intro p hp x hx
+      obtain ⟨w, hw, rfl⟩ := List.mem_map.mp hp
+      exact hmem x (hs.1 w hw x hx)
+    · intro k' x hx
+      simp only [PState.set] at hx
+      by_cases hk : k' = k
+      · subst hk; simp at hx; exact hmem x (hs.2 x hx)
+      · simp [hk] at hx; exact hinv k' x hx
+  | none =>
+    have hadds : adds [op] = [] := by cases op <;> simp_all [winRoute, adds]
+    simp only
+    refine ⟨nodup_flatMap_tag (fun k => (m.step (ps.sub k) op).2) (fun k => hone _ _) ps.dom hnd, ?_, ?_⟩
+    · intro p hp x hx
+      obtain ⟨k, _, hp⟩ := List.mem_flatMap.mp hp
+      obtain ⟨w, hw, rfl⟩ := List.mem_map.mp hp
+      have := (hsub (ps.sub k) op).1 w hw x hx
+      rw [hadds, List.append_nil] at this
+      exact hinv k x this
+    · intro k x hx
+      simp only at hx
+      split at hx
+      · have := (hsub (ps.sub k) op).2 x hx
+        rw [hadds, List.append_nil] at this
+        exact hinv k x this
+      · exact hinv k x hx
+
+/-- states reachable from the empty map keep distinct keys and own-key buffers; so every step's emissions
+regroup exactly: the partitioned aggregate behind a partitioned window yields one result per emitted
+non-empty window, computed from that window alone -/
+theorem partitioned_window_then_aggregate {σ ρ : Type} (m : Machine σ Op (List Ev)) (bufOf : σ → List Ev)
+    (hsub : ∀ s o, (∀ w ∈ (m.step s o).2, ∀ e ∈ w, e ∈ bufOf s ++ adds [o]) ∧ (∀ e ∈ bufOf (m.step s o).1, e ∈ bufOf s ++ adds [o]))
+    (hone : ∀ s o, (m.step s o).2.length ≤ 1) (hinit : bufOf m.init = []) (drop : Op → List (List Ev) → Bool)
+    (agg : List Ev → ρ) (pre : List Op) (op : Op) :
+    let out := ((partitioned m winRoute drop).step ((partitioned m winRoute drop).final (partitioned m winRoute drop).init pre) op).2
+    aggregateStage agg out = (out.filter (fun p => p.2 ≠ [])).map (fun p => (p.1, agg p.2)) := by
+  have reach : ∀ (ops : List Op) (ps : PState String σ), ps.dom.Nodup → OwnKeys bufOf ps →
+      ((partitioned m winRoute drop).final ps ops).dom.Nodup ∧ OwnKeys bufOf ((partitioned m winRoute drop).final ps ops) := by
+    intro ops
+    induction ops with
+    | nil => intro ps h1 h2; exact ⟨h1, h2⟩
+    | cons o os ih =>
+      intro ps h1 h2
+      simp only [Machine.final]
+      have hs := pstep_out_ok m bufOf hsub hone drop ps h1 h2 o
+      refine ih _ ?_ hs.2.2
+      -- dom stays duplicate-free
+      simp only [partitioned]
+      unfold pstep
+      cases winRoute o with
+      | some k =>
+        simp only [PState.set]
+        split
+        · exact h1
+        · rename_i hn
+          rw [List.nodup_append]
+          exact ⟨h1, by simp, by intro a ha b hb; simp at hb; subst hb; intro h; subst h; exact hn ha⟩
+      | none => exact h1.filter _
+  intro out
+  have h0 := reach pre (partitioned m winRoute drop).init (by simp [partitioned]) (by intro k e he; simp [partitioned, hinit] at he)
+  have hs := pstep_out_ok m bufOf hsub hone drop _ h0.1 h0.2 op
+  exact aggregateStage_eq agg out hs.1 hs.2.1
+
+theorem tumbling_one (d : Int) : ∀ s o, ((tumbling d).step s o).2.length ≤ 1 := by
+  intro s o; cases o <;> simp only [tumbling, Tumbling.step, flushed] <;> (repeat' split) <;> simp
+theorem count_one (n : Nat) : ∀ s o, ((count n).step s o).2.length ≤ 1 := by
+  intro s o; cases o <;> simp only [count, Count.step, flushed] <;> (repeat' split) <;> simp
+theorem session_one (g : Int) : ∀ s o, ((session g).step s o).2.length ≤ 1 := by
+  intro s o; cases o <;> simp only [session, Session.step, flushed] <;> (repeat' split) <;> simp
+theorem sliding_one (a b : Int) : ∀ s o, ((sliding a b).step s o).2.length ≤ 1 := by
+  intro s o; cases o <;> simp only [sliding, Sliding.step] <;> (repeat' split) <;> simp
+theorem slidingCount_one (a b : Nat) : ∀ s o, ((slidingCount a b).step s o).2.length ≤ 1 := by
+  intro s o; cases o <;> simp only [slidingCount, SlidingCount.step] <;> (repeat' split) <;> simp
+
 end Varpulis.Window
